@@ -9,11 +9,12 @@ import DemesVerif.Ops.Cost
 import DemesVerif.Ops.Ms
 import DemesVerif.Ops.Heap
 import DemesVerif.Ops.Spec
+import DemesVerif.Ops.Builder
 namespace Demes.Ops
 open Lean
 
 def dispatchers : List (String → Json → Option Json) :=
-  [Core.dispatch?, IO.dispatch?, Handles.dispatch?, Cli.dispatch?, Cost.dispatch?, Ms.dispatch?, Heap.dispatch?, SpecOps.dispatch?]
+  [Core.dispatch?, IO.dispatch?, Handles.dispatch?, Cli.dispatch?, Cost.dispatch?, Ms.dispatch?, Heap.dispatch?, SpecOps.dispatch?, Builder.dispatch?]
 
 def dispatch (j : Json) : Json :=
   match j.getObjValAs? String "op" with
